@@ -99,20 +99,24 @@ Lemma same_components_refl p : same_components p p = true.
 Proof. apply lstrip_map_refl. Qed.
 
 Lemma defined_here_not_aliased f e p :
+  f PIsModule = false ->
   ae_child_mod e = Some p -> ae_parent_mod e = Some p -> alias_target_path f e = None.
 Proof.
-  intros Hc Hp. unfold alias_target_path. rewrite Hc, Hp, same_components_refl.
+  intros Hm Hc Hp. unfold alias_target_path. rewrite Hc, Hp, same_components_refl, Hm.
   destruct (negb (ae_has_parent e)); auto.
   destruct (okind_eqb (inspector_okind f) KAttribute); auto.
   destruct (cyclic p p); auto.
 Qed.
+
+Lemma defined_form_not_module d : is_import d = false -> runtime_features d PIsModule = false.
+Proof. destruct d as [[|] [|]|[|]|[|]| | |[|]|[|]|sc t]; intros H; try discriminate; vm_compute; reflexivity. Qed.
 
 Theorem kind_agrees_in_place d e p cur name hf :
   is_import d = false ->
   ae_child_mod e = Some p -> ae_parent_mod e = Some p ->
   skeleton (inspect_child (runtime_features d) e cur name hf) = skeleton (visitor_member d).
 Proof.
-  intros Hi Hc Hp. unfold inspect_child. rewrite (defined_here_not_aliased _ e p Hc Hp).
+  intros Hi Hc Hp. unfold inspect_child. rewrite (defined_here_not_aliased _ e p (defined_form_not_module d Hi) Hc Hp).
   symmetry. apply kind_agrees; assumption.
 Qed.
 
@@ -270,15 +274,14 @@ Qed.
 
 Theorem dynamic_module_rule sc e M P cur name hf :
   ae_has_parent e = true -> ae_parent_mod e = Some M -> ae_child_mod e = Some P ->
-  cyclic M P = false -> same_components M P = false -> not_builtin_like e P ->
+  cyclic M P = false ->
   inspect_child (runtime_features (DImported sc TModule)) e cur name hf =
   if path_eqb P (cur ++ [name]) then (if hf then MNothing else MObj GModule []) else MAlias P.
 Proof.
-  intros Hp HM HD Hc Hs Hb.
+  intros Hp HM HD Hc.
   assert (Hv : TModule <> TValue) by discriminate.
   unfold inspect_child, alias_target_path.
-  rewrite Hp, HM, HD, Hc, Hs, (imported_not_attribute sc TModule Hv), imported_ismodule. simpl.
-  unfold not_builtin_like in Hb. rewrite Hb. reflexivity.
+  rewrite Hp, HM, HD, Hc, (imported_not_attribute sc TModule Hv), imported_ismodule. simpl. reflexivity.
 Qed.
 
 (* the stated exception: an imported plain value is an attribute of the importing scope *)
@@ -307,14 +310,13 @@ Qed.
 Theorem submodule_import_no_member m sub e hf :
   m_path m <> [] -> m_init m = true ->
   ae_has_parent e = true -> ae_parent_mod e = Some (m_path m) -> ae_child_mod e = Some (m_path m ++ [sub]) ->
-  cyclic (m_path m) (m_path m ++ [sub]) = false -> same_components (m_path m) (m_path m ++ [sub]) = false ->
-  not_builtin_like e (m_path m ++ [sub]) -> hf = true ->
+  cyclic (m_path m) (m_path m ++ [sub]) = false -> hf = true ->
   visit_importfrom (m_path m) m (mkImp 1 [] sub None) = MNothing /\
   inspect_child (runtime_features (DImported SMod TModule)) e (m_path m) sub hf = MNothing.
 Proof.
-  intros Hp Hi H1 H2 H3 H4 H5 H6 H7. split.
+  intros Hp Hi H1 H2 H3 H4 H7. split.
   - unfold visit_importfrom. simpl. rewrite Hi. reflexivity.
-  - rewrite (dynamic_module_rule SMod e (m_path m) (m_path m ++ [sub]) (m_path m) sub hf H1 H2 H3 H4 H5 H6).
+  - rewrite (dynamic_module_rule SMod e (m_path m) (m_path m ++ [sub]) (m_path m) sub hf H1 H2 H3 H4).
     rewrite path_eqb_refl, H7. reflexivity.
 Qed.
 
